@@ -36,19 +36,18 @@ Print Assumptions C20_after_is_new.
 (* the shared-state write sites of the reload path, as read off policy.py on this run *)
 Theorem C20_write_sites :
   reload_write_sites =
-  [s "_record_file_rules: self.file_rules = {}";
-   s "_record_file_rules: self.file_rules[name] = file_rule";
-   s "load_rules: self._informed_no_policy_file = True";
-   s "load_rules: self._need_check_rule = False";
-   s "load_rules: self.file_rules = {}";
-   s "load_rules: self.policy_path = self._get_policy_path(self.policy_file)";
-   s "load_rules: self.rules = Rules(default_rule=self.default_rule)";
-   s "load_rules: self.rules[default.name] = check";
-   s "load_rules: self.use_conf = force_reload";
-   s "set_rules: self._need_check_rule = True";
-   s "set_rules: self.rules = Rules(rules, self.default_rule)";
-   s "set_rules: self.rules.update(rules)";
-   s "set_rules: self.use_conf = use_conf"].
+  [s "self._informed_no_policy_file = True";
+   s "self._need_check_rule = False";
+   s "self._need_check_rule = True";
+   s "self.file_rules = {}";
+   s "self.file_rules[name] = file_rule";
+   s "self.policy_path = self._get_policy_path(self.policy_file)";
+   s "self.rules = Rules(default_rule=self.default_rule)";
+   s "self.rules = Rules(rules, self.default_rule)";
+   s "self.rules.update(rules)";
+   s "self.rules[default.name] = check";
+   s "self.use_conf = force_reload";
+   s "self.use_conf = use_conf"].
 Proof. reflexivity. Qed.
 Print Assumptions C20_write_sites.
 
